@@ -25,7 +25,7 @@ ASSUMPTIONS = ['bounded time = at most 200 000 line/jump events of the interpret
                'only Exception subclasses are injected into callbacks (KeyboardInterrupt/SystemExit are not "raising callbacks")',
                'a result that is a list *containing* error objects is not excluded by the statement',
                'the typed pool of the function sweep holds numbers <= 1000 in magnitude; huge arguments (1e9 .. 1e308) and huge integer powers are the subject of c01.blowups, where a 3 s wall-clock alarm stands in for the step budget',
-               'a host list that contains itself is out of bound (flattening it cannot terminate); lists nested 3000 deep are in']
+               'host lists that contain themselves and lists nested 3000 deep are in the bound']
 
 
 def wellformed(r):
@@ -386,12 +386,20 @@ def _chained(E):
         return e
 
 
+def _selfref(kind):
+    """a host list that contains itself (directly / through a row)"""
+    l = [1, 2]
+    l.append(l if kind == 1 else [3, l])
+    return l
+
+
 def return_menu(env):
     X = env.err.XLError
     return [None, 0, 'txt', True, [1, 2], env.dec({'$err': '#REF!'}), X('#WEIRD!'), float('nan'), object(),
             {'result': 1},
             # error objects of the host's own making inside 1x1 and 1xN lists (what a range listener hands in)
-            [[X('#SPILL!')]], [X('#CALC!')], [[X()]], [[env.dec({'$err': '#N/A'})]], [[X('#WEIRD!'), 1], [2, 3]], [[5]], []]
+            [[X('#SPILL!')]], [X('#CALC!')], [[X()]], [[env.dec({'$err': '#N/A'})]], [[X('#WEIRD!'), 1], [2, 3]], [[5]], [],
+            _selfref(1), _selfref(2)]
 
 
 TEMPLATES = ['FN(1)', 'A1', 'B1:B1', 'va', 'FN(1)+10', '10+FN(1)*3', 'SUM(FN(1),5)', 'FN(FN(1))', 'FN(1)&FN(2)', 'va+1', 'A1+B2', 'SUM(A1:B2)',
@@ -404,14 +412,14 @@ class Faults(Sub):
     name = 'c01.callback_faults'
     rule = ('17 templates reaching every host callback (custom function, listeners of the four events); every callback '
             'invocation of a template either behaves or raises one of 27 exception kinds (hostile __str__/__hash__/__eq__/'
-            '__repr__ included) / returns or sets one of 17 odd '
+            '__repr__ included) / returns or sets one of 19 odd '
             'values (incl. host-made error objects inside 1x1 lists); all placements of up to F faults; non-trivial = placement where a callback raised')
     min_cases = 500
     min_nontrivial = 300
     min_classes = 3
 
     def cases(self, tier, unit):
-        nmenu = 27 + 17
+        nmenu = 27 + 19
         for ti in range(len(TEMPLATES)):
             yield [ti, []]
             # first pass discovers how many callback invocations the template has; enumerate up to 12 sites
@@ -636,7 +644,7 @@ class Actions(Sub):
 
 
 HUGE = [10 ** 9, 999999999999, -10 ** 9, 1e308, 2 ** 70, 0.5, 2, 'abc', '1e999999999']      # the last: TEXT spelling a huge number
-HUGE_LITERALS = ['9^999999999', '7*(9^99999999)', '2^1024', '99^999', '2^999999999^2', '10^400', '1/(9^99999999)', '(2^1023)*2',
+HUGE_LITERALS = ['9^999999999', '7*(9^99999999)', '2^1024', '99^999', '2^999999999^2', '10^400', '1/(9^99999999)', '(2^1023)*2', 'A' * 40000 + '1',
                  '999999999^999999999', '1^999999999', '0^999999999', 'SUM(9^999999999,1)', '-9^99999999', '9^99999999&"a"',
                  '9^99999999=9^99999999', 'IFERROR(9^999999999,1)', '"1e999999999"+0', '-"1e999999999"', '"5e-999999999"*2',
                  'COUNTIF({1,2},">1e999999999")', '"1e999999999"="1e999999999"', '"1e999999999"&""']
